@@ -28,6 +28,31 @@ type EmbStruct struct {
 	Tags []string
 }
 
+// IfaceStruct: comparable as a type, not necessarily as a value.
+type IfaceStruct struct {
+	Name string
+	Any  any
+}
+
+// two DIFFERENT struct types that print the same name (function-local declarations)
+func homonymA(l *LeafDesc) any {
+	type entry struct {
+		Name string
+		Age  int
+	}
+	return entry{l.Elems[0].S, int(l.Elems[1].I)}
+}
+
+func homonymB(l *LeafDesc) any {
+	type entry struct {
+		Name   string
+		Age    int
+		Mail   string
+		Scores []int
+	}
+	return entry{l.Elems[0].S, int(l.Elems[1].I), l.Elems[2].S, []int{int(l.Elems[3].I), int(l.Elems[4].I)}}
+}
+
 // SliceStruct has slice- and array-valued fields.
 type SliceStruct struct {
 	Name string
@@ -163,6 +188,15 @@ func init() {
 	extraLeaf["emb-struct"] = func(l *LeafDesc) any {
 		return EmbStruct{embBase: embBase{X: 3}, Name: l.Elems[0].S, Tags: []string{l.Elems[1].S, l.Elems[2].S}}
 	}
+	extraLeaf["iface-struct"] = func(l *LeafDesc) any {
+		// a struct whose type is comparable although this value is not (an interface field holding a slice / a map)
+		if l.N == 1 {
+			return IfaceStruct{Name: l.Elems[0].S, Any: map[string]int{"k": int(l.Elems[1].I), "l": int(l.Elems[2].I)}}
+		}
+		return IfaceStruct{Name: l.Elems[0].S, Any: []int{int(l.Elems[1].I), int(l.Elems[2].I)}}
+	}
+	extraLeaf["homonym-a"] = homonymA
+	extraLeaf["homonym-b"] = homonymB
 	extraLeaf["slice-struct"] = func(l *LeafDesc) any {
 		return SliceStruct{Name: l.Elems[0].S, L: []int{int(l.Elems[1].I), int(l.Elems[2].I), int(l.Elems[3].I)}, Arr: [2]string{l.Elems[4].S, l.Elems[5].S}}
 	}
@@ -252,6 +286,14 @@ func c05Leaf(r *core.Rng) *LeafDesc {
 		return &LeafDesc{Tag: "slice-struct", Elems: []*LeafDesc{strLeaf(r), intLeaf(r), intLeaf(r), intLeaf(r), strLeaf(r), strLeaf(r)}}
 	case 14:
 		return &LeafDesc{Tag: "emb-struct", Elems: []*LeafDesc{strLeaf(r), strLeaf(r), strLeaf(r)}}
+	case 16:
+		switch r.Intn(3) {
+		case 0:
+			return &LeafDesc{Tag: "iface-struct", N: r.Intn(2), Elems: []*LeafDesc{strLeaf(r), intLeaf(r), intLeaf(r)}}
+		case 1:
+			return &LeafDesc{Tag: "homonym-a", Elems: []*LeafDesc{strLeaf(r), intLeaf(r)}}
+		}
+		return &LeafDesc{Tag: "homonym-b", Elems: []*LeafDesc{strLeaf(r), intLeaf(r), strLeaf(r), intLeaf(r), intLeaf(r)}}
 	case 15:
 		bl := func(*core.Rng) *LeafDesc { return &LeafDesc{Tag: "uint8", I: int64(r.Intn(200))} }
 		if r.Bool() {
@@ -537,6 +579,7 @@ func flatJSON(n *TNode) string {
 		}
 		// presentation settings are not among the differences the statement obliges IsEqual to report
 		x.Sym, x.Paren, x.Fold, x.NoPad, x.LeadOnce, x.Delim, x.Enc, x.Neg, x.Fwd = "", false, false, false, false, "", nil, false, false
+		x.Shared, x.Mutex = false, false // (how many positions hold one instance is no difference of content either)
 	})
 	return core.JSON(c)
 }
